@@ -1,3 +1,49 @@
+import BU.Py
+import BU.Spec.Ecdsa
+import BU.Spec.CurveLaws
 import BU.Model.Sign
+import BU.Proofs.DerLemmas
+/-!
+# C06 — ECDSA input signatures are valid, strictly DER, low-S, low-R and deterministic
+
+M: `Model.grind` / `Model.normalise` / `Model.signInput` — the repository's own logic in `_sign_input`
+(low-R loop, decode, low-S, re-encode, hash-type byte).  python-ecdsa (RFC 6979 signing, DER codec) is a
+parameter: its DER codec is `Spec.derEncode/derDecode`, its per-attempt signatures are inputs.
+-/
 namespace C06
+open Py Spec Model Secp
+
+/-- **every (r, s) class** (s just below/above n/2, s with high bit, n−s with leading zero bytes, short r …):
+normalising the DER encoding of (r, s) yields a strictly DER (BIP66) signature followed by exactly the
+hash-type byte, carrying the same r and the low representative of s -/
+theorem normalise_strict_lowS (r s : Nat) (hr0 : 0 < r) (hr : r < n) (hs0 : 0 < s) (hs : s < n) (ht : Nat) (hht : ht < 256) :
+    ∃ out s', normalise (derEncode r s) ht = .ok out ∧ isStrictDer out = true ∧
+      out.getLast? = some (UInt8.ofNat ht) ∧ derDecode out.dropLast = some (r, s') ∧
+      lowS s' = true ∧ 0 < s' ∧ (s' = s ∨ s' = n - s) := by
+  sorry
+
+/-- the grinding loop returns the first attempt whose r is below 2^255 (low R: 32-byte r, no sign byte) -/
+theorem grind_first_lowR (atts : List (Nat × Nat)) (hw : ∀ a ∈ atts, 0 < a.1 ∧ a.1 < 2 ^ 256)
+    (sig : Bytes) (k : Nat) (h : grind (atts.map fun a => derEncode a.1 a.2) 0 = .ok (sig, k)) :
+    ∃ r s, atts[k]? = some (r, s) ∧ sig = derEncode r s ∧ r < 2 ^ 255 ∧
+      ∀ j, j < k → ∀ rj sj, atts[j]? = some (rj, sj) → 2 ^ 255 ≤ rj := by
+  sorry
+
+/-- the whole of `_sign_input` on what the signer returned per attempt: strict DER, low S, low R, hash type -/
+theorem sign_input_spec (atts : List (Nat × Nat)) (hw : ∀ a ∈ atts, 0 < a.1 ∧ a.1 < n ∧ 0 < a.2 ∧ a.2 < n)
+    (ht : Nat) (hht : ht < 256) (out : Bytes) (k : Nat)
+    (h : signInput (atts.map fun a => derEncode a.1 a.2) ht = .ok (out, k)) :
+    ∃ r s s', atts[k]? = some (r, s) ∧ isStrictDer out = true ∧ out.getLast? = some (UInt8.ofNat ht) ∧
+      derDecode out.dropLast = some (r, s') ∧ r < 2 ^ 255 ∧ lowS s' = true ∧ (s' = s ∨ s' = n - s) := by
+  sorry
+
+/-- replacing s by n − s keeps a signature valid (so the low-S rule never invalidates what the signer produced) -/
+theorem lowS_preserves_validity (laws : CurveLaws) (d : Nat) (hd : 0 < d ∧ d < n) (z r s : Nat)
+    (hs : 0 < s ∧ s < n) (hv : ecdsaVerify (mul G d) z r s = true) :
+    ecdsaVerify (mul G d) z r (n - s) = true := by
+  sorry
+
+/-- non-vacuity: a concrete high-S pair is in the domain and gets flipped -/
+example : (normalise (derEncode 5 (n - 7)) 1).toOption = some (derEncode 5 7 ++ [1]) := by decide +kernel
+
 end C06
